@@ -792,6 +792,21 @@ def _anchor_calls():
     return _ANCHOR_CALLS
 
 
+_ANCHOR_PARAMS = None
+
+
+def _anchor_params():
+    global _ANCHOR_PARAMS
+    if _ANCHOR_PARAMS is None:
+        import os
+        p = os.path.join(os.path.dirname(os.path.dirname(os.path.abspath(__file__))), "anchors_params.json")
+        try:
+            _ANCHOR_PARAMS = json.load(open(p))
+        except Exception:
+            _ANCHOR_PARAMS = {}
+    return _ANCHOR_PARAMS
+
+
 _ANCHOR_ADTS = None
 
 
@@ -935,6 +950,7 @@ class Crate:
         self.adts = {a["path"]: a for a in j["adts"]}
         if use_anchors and self.name == "slotted_egraphs":
             self._inject_aliases()
+            self._normalise_param_names()
         self.impls = j["impls"]
         self.statics = j["statics"]
         self.unsafe = j["unsafe"]
@@ -1149,6 +1165,34 @@ class Crate:
                 for c in b.calls:
                     if c.callee is not None and c.callee.target in self.aliases:
                         c.callee.name = self.aliases[c.callee.target]
+
+    def _normalise_param_names(self):
+        """rules name a few parameters literally (`m`, `eg`, `subst`, ..).  A function of the reviewed tree whose parameters
+        have the reviewed types, position by position, but other names had them renamed: the reviewed names are put back
+        (anchors_params.json, written by mkanchors.py), unless that would clash with a name the function uses now."""
+        table = _anchor_params()
+        sigs = _anchors()
+        if not table:
+            return
+        for b in self.bodies.values():
+            if b.kind == "Closure" or not b.name or not (b.file or "").startswith("src/"):
+                continue
+            k = "%s::%s" % (b.file, b.name)
+            names = table.get(k)
+            sig = sigs.get(k)
+            if names is None:
+                ks = [kk for kk in table if kk.rsplit("::", 1)[1] == b.name]
+                if len(ks) != 1 or len(self.by_name.get(b.name, [])) != 1:
+                    continue
+                names, sig = table[ks[0]], sigs.get(ks[0])
+            if not sig or len(names) != b.argc or len(sig) - 2 != b.argc:
+                continue
+            used = set(b.var_names.values())
+            for l in range(1, b.argc + 1):
+                want, have = names[l - 1], b.var_names.get(l)
+                if want and have != want and b.local_ty(l) == sig[l - 1] and want not in used:
+                    b.var_names[l] = want
+                    used.add(want)
 
     def _link_closures(self):
         for b in self.bodies.values():
